@@ -58,4 +58,83 @@ example : wellOrdered (α := Nat)
 example : wellOrdered (α := Nat)
     [⟨[0], [1], fun c _ => (c 0).getD 0 + 1⟩, ⟨[], [0], fun _ _ => 5⟩] = false := by decide
 
+/-! ## delayed values built by lifted calls -/
+
+theorem collects_of_WF (S : Shapes) (hS : S.WF = true) (k : Kind) (kw first : Bool) : collects S k kw first = true := by
+  simp only [Shapes.WF, Bool.and_eq_true] at hS
+  obtain ⟨⟨⟨⟨⟨⟨⟨h1, h2⟩, h3⟩, h4⟩, h5⟩, h6⟩, h7⟩, h8⟩ := hS
+  cases k <;> cases kw <;> cases first <;> simp [collects, *]
+
+/-- when every constructor collects all its operands, everything a delayed value reads is declared -/
+theorem reads_subset_required (S : Shapes) (hS : S.WF = true) :
+    ∀ (d : DVal) (k : Kind) (first : Bool), ∀ p ∈ reads d, p ∈ required S k first d := by
+  intro d
+  induction d with
+  | const v => intro k first p hp; simp [reads] at hp
+  | prop q => intro k first p hp; simpa [reads, required] using hp
+  | nil => intro k first p hp; simp [reads] at hp
+  | arg kw d rest ihd ihr =>
+    intro k first p hp
+    simp only [reads, List.mem_append] at hp
+    simp only [required, collects_of_WF S hS, if_true, List.mem_append]
+    rcases hp with hp | hp
+    · exact Or.inl (ihd k first p hp)
+    · exact Or.inr (ihr k _ p hp)
+  | call k' f args ih => intro k first p hp; exact ih k' true p (by simpa [reads] using hp)
+
+/-- the value of a delayed value depends only on the properties it reads -/
+theorem evalD_local (I : Nat → List (Bool × Int) → Int) (c1 c2 : Ctx Int) :
+    ∀ d : DVal, (∀ p ∈ reads d, c1 p = c2 p) → evalD I c1 d = evalD I c2 d := by
+  intro d
+  induction d with
+  | const v => intro _; rfl
+  | prop q => intro h; simp [evalD, h q (by simp [reads])]
+  | nil => intro _; rfl
+  | arg kw d rest ihd ihr =>
+    intro h
+    simp only [evalD]
+    rw [ihd (fun p hp => h p (by simp [reads, hp])), ihr (fun p hp => h p (by simp [reads, hp]))]
+  | call k f args ih => intro h; simp only [evalD]; rw [ih (fun p hp => h p (by simpa [reads] using hp))]
+
+/-- **C05, delayed arguments of lifted calls.**  A specifier whose value is a lifted call over lazily evaluated
+    operands — positional or keyword, nested to any depth — depends only on the properties it declares, provided
+    every constructor collects all the operands it evaluates (`Shapes.WF`, a side condition on generated data). -/
+theorem delayedSpec_local (S : Shapes) (hS : S.WF = true) (I : Nat → List (Bool × Int) → Int) (d : DVal)
+    (sets : List Prop') : (delayedSpec S I d sets).local := by
+  intro c1 c2 h q
+  simp only [delayedSpec]
+  rw [evalD_local I c1 c2 d (fun p hp => h p (reads_subset_required S hS d .fnCall true p hp))]
+
+/-- … hence it is evaluated against the final values of the properties it refers to, whatever the order in which
+    the specifiers are written and whichever modifying specifiers change those properties, as long as the
+    evaluation order respects the *declared* dependencies (`wellOrdered`, established by `_resolveSpecifiers`). -/
+theorem lifted_call_eval_final (S : Shapes) (hS : S.WF = true) (I : Nat → List (Bool × Int) → Int) (d : DVal)
+    (sets : List Prop') (pre post : List (Spec Int)) (ctx0 : Ctx Int)
+    (hwo : wellOrdered (delayedSpec S I d sets :: post) = true) :
+    headVal (evalD I (run pre ctx0) d) = headVal (evalD I (run (pre ++ delayedSpec S I d sets :: post) ctx0) d) :=
+  delayed_eval_final pre (delayedSpec S I d sets) post ctx0 hwo (delayedSpec_local S hS I d sets) 0
+
+/-- the shape "required properties collected from positional arguments only" (keyword arguments dropped) -/
+def kwDropped : Shapes :=
+  { fnPos := true, fnKw := false, dcallSelf := true, dcallPos := true, dcallKw := true, opSelf := true, opArgs := true,
+    attrSelf := true }
+
+/-- `f(10, delta=<lazy position>)`: with the keyword operands dropped from the declared dependencies the specifier is
+    no longer local — its value changes with a property it does not declare, so the order `_resolveSpecifiers`
+    derives from the declarations may evaluate it before the final value exists. -/
+theorem kwargs_dropped_not_local :
+    ¬ (delayedSpec kwDropped (fun _ l => headVal l + 10 * headVal (l.drop 1))
+        (.call .fnCall 0 (.arg false (.const 10) (.arg true (.prop 0) .nil))) [1]).local := by
+  intro h
+  have h' := h (fun _ => some 0) (fun _ => some 1) (by
+    intro p hp
+    simp [delayedSpec, required, collects, kwDropped] at hp) 0
+  simp [delayedSpec, evalD, headVal] at h'
+
+example : required ⟨true, true, true, true, true, true, true, true⟩ .fnCall true
+    (.call .fnCall 0 (.arg false (.const 10) (.arg true (.call .fnCall 0 (.arg true (.prop 3) .nil)) .nil))) = [3] := by decide
+
+example : required kwDropped .fnCall true
+    (.call .fnCall 0 (.arg false (.const 10) (.arg true (.call .fnCall 0 (.arg true (.prop 3) .nil)) .nil))) = [] := by decide
+
 end Scenic.Delayed
